@@ -21,8 +21,17 @@ A table may be LARGE (round 3): `data` then holds a few distinct rows and `take`
 (13 .. 1300 rows in the quick tier, .. 2600 in the thorough tier).  The oracle is asked for the distance table D of the
 distinct rows only (specification and model, cdist); the expected matrix is D[take_A[i]][take_B[j]] and the expected
 condensed vector holds D[take[i]][take[j]] at position cidx n i j (row-major, i < j) - theorems C09_row_local (the
-entry depends on the two rows' contents only) and C09_pdist_condensed (position cidx of the vector holds entry (i, j))."""
-import copy, itertools
+entry depends on the two rows' contents only) and C09_pdist_condensed (position cidx of the vector holds entry (i, j)).
+
+Coverage audit (NOTES.md of the audit, design_notes/C09.md last section): a case may also carry `callkw` (the public methods called with
+anchors= / comparisons= / instances=), `alias` ('same': ONE table object as anchors and as comparisons; 'copy': two equal objects), constructor
+arguments handed over positionally beyond the third, and a table description may carry `index_as` (MultiIndex, float / datetime / tuple labels,
+a named index, a RangeIndex with a step), `frame_as` (DataFrame subclass, a part of a larger frame, a named column axis) and further dtypes
+(str, categorical CDR3, categorical with unused categories).  Further earlier calls: 'clobber', 'variantV', 'variantC', 'temp'.  Further
+families in run(): table sizes 0 / 1 / 2 as a product, chain / loop weights up to the end of the exact-storage domain of each scorer path
+(uint32 below 2^32, float32 below 2^24), CDR3 loops of 64 / 128 / 256 residues, large tables of pairwise distinct rows, CDR3 strings that
+differ in case / white space / look-alike letters only, tables holding just the columns a class reads, further non-table objects."""
+import copy, itertools, os
 import numpy as np
 import pandas as pd
 import gens
@@ -50,6 +59,16 @@ INDEX_KINDS = ['default', 'shifted', 'permuted', 'duplicated', 'string']
 LOOP_COLS = ['CDR1A', 'CDR2A', 'CDR1B', 'CDR2B']
 INTERNAL_COLS = LOOP_COLS + ['CDR1X', 'CDR2X']
 STEP_HOWS = ['same', 'swap', 'selfA', 'selfB', 'pdistA', 'pdistB']
+# audit: further kinds of earlier calls - 'clobber' = the array an earlier identical call returned is overwritten by the caller;
+# 'variantV' / 'variantC' = ANOTHER table object with the same labels and the same V columns (CDR3 columns) but the other columns rotated
+# among the rows was evaluated earlier; 'temp' = a temporary table was evaluated and freed, the judged table object is made afterwards
+STEP_HOWS_MORE = ['clobber', 'variantV', 'variantC', 'temp']
+# audit: kinds of index objects built on top of the label list, kinds of frame objects, dtypes
+INDEX_AS = ['multi', 'float', 'datetime', 'tuple', 'named:TRAV', 'named:CDR1A', 'named:id', 'rangestep']
+FRAME_AS = ['subclass', 'slice', 'mask', 'colname']
+# positional order of the constructor parameters (the documented signatures; CdrLevenshtein inherits the base signature, whose order
+# differs from the order of its docstring: positional arguments beyond the third are not generated for it)
+EDITW = ('insertion_weight', 'deletion_weight', 'substitution_weight')
 _GENES = {}
 
 
@@ -85,7 +104,61 @@ def make_frame(fj):
     if idx != 'default':
         df.index = pd.Index(list(idx))
     for c, dt in fj.get('dtypes', {}).items():
-        df[c] = df[c].astype(dt)
+        cells = list(df[c])
+        if dt in ('category+', 'category!'):
+            # categorical with unused categories, categories not in order of appearance.  The unused categories of a V column are alleles of the
+            # gene reference ('category!', PENDING - see NOTES.md: an unused category that is no allele)
+            vals = list(df[c])
+            unused = ['not a gene'] if dt == 'category!' else ['TRAV9-2*01', 'TRBV28*01'] if c in ('TRAV', 'TRBV') else ['ZZ', 'unused']
+            df[c] = pd.Categorical(vals, categories=sorted(set(vals), reverse=True) + [u for u in unused if u not in vals])
+        else:
+            df[c] = df[c].astype(dt)
+        if list(df[c].astype(object)) != cells:
+            df[c] = pd.Series(cells, index=df.index, dtype=object)      # the conversion did not keep the cells (pandas): the column stays as described
+    if fj.get('index_as'):
+        df.index = index_as(fj['index_as'], list(df.index))
+    if fj.get('frame_as'):
+        df = frame_as(fj['frame_as'], df)
+    return df
+
+
+def index_as(kind, labels):
+    """another kind of index object carrying the label list (equal labels stay equal, distinct ones distinct)"""
+    n = len(labels)
+    ints = all(isinstance(x, (int, np.integer)) for x in labels)
+    if kind == 'multi':
+        return pd.MultiIndex.from_arrays([labels, [str(x)[-1:] for x in labels]], names=['sample', None])
+    if kind == 'float' and ints:
+        return pd.Index([float(x) + 0.5 for x in labels], dtype='float64')
+    if kind == 'datetime' and ints:
+        return pd.DatetimeIndex([pd.Timestamp('2020-03-01') + pd.Timedelta(days=int(x)) for x in labels])
+    if kind == 'tuple':
+        return pd.Index([(x, 'k') for x in labels], tupleize_cols=False)
+    if kind == 'rangestep' and ints and labels == list(range(n)):
+        return pd.RangeIndex(10 + 3 * n, 10, -3)
+    name = kind.split(':', 1)[1] if kind.startswith('named:') else 'idx'
+    return pd.Index(labels, name=name)
+
+
+class TableSub(pd.DataFrame):
+    """a DataFrame subclass (is a DataFrame, hence a TCR table when it has a TCR column)"""
+
+    @property
+    def _constructor(self):
+        return TableSub
+
+
+def frame_as(kind, df):
+    if kind == 'subclass':
+        return TableSub(df)
+    if kind in ('slice', 'mask') and len(df) >= 1:
+        # the table is a part of a larger frame (pandas hands out a frame that shares the parent's data)
+        big = pd.concat([df.iloc[[-1]], df, df.iloc[[0]]])
+        if kind == 'slice':
+            return big.iloc[1:-1]
+        return big[[False] + [True] * len(df) + [False]]
+    if kind == 'colname':
+        df.columns = df.columns.rename('field')
     return df
 
 
@@ -133,6 +206,32 @@ def make_obj(oj):
         return Duck(rows)
     if k == 'tuple_of_frames':
         return (pd.DataFrame(rows, columns=['TRAV', 'CDR3A', 'TRBV', 'CDR3B']),)
+    # audit: further objects that are not DataFrames
+    cols4 = ['TRAV', 'CDR3A', 'TRBV', 'CDR3B']
+    if k == 'list_of_frames':
+        return [pd.DataFrame(rows, columns=cols4)]
+    if k == 'set':
+        return set(cols4)
+    if k == 'generator':
+        return (tuple(r) for r in rows)
+    if k == 'int':
+        return 3
+    if k == 'recarray':
+        return pd.DataFrame(rows, columns=cols4).to_records(index=False)
+    if k == 'frameclass':
+        return pd.DataFrame
+    if k == 'transposed':       # the TCR column names are the ROW labels
+        return pd.DataFrame(rows, columns=cols4).T
+    if k == 'dict_of_series':
+        return {c: pd.Series([r[i] for r in rows]) for i, c in enumerate(cols4)}
+    if k == 'series_of_dicts':
+        return pd.Series([dict(zip(cols4, r)) for r in rows])
+    if k == 'columns_index':
+        return pd.Index(cols4)
+    if k == 'ndarray_str':
+        return np.array(rows, dtype=str)
+    if k == 'multicolumns':     # no column is NAMED like a TCR column: the names are pairs
+        return pd.DataFrame(rows, columns=pd.MultiIndex.from_tuples([('x', 'a'), ('x', 'b'), ('y', 'a'), ('y', 'b')]))
     raise ValueError(k)
 
 
@@ -168,6 +267,14 @@ def materialize(fj):
     return dict(columns=fj['columns'], index=fj['index'], data={c: [v[t] for t in fj['take']] for c, v in fj['data'].items()}, dtypes=fj.get('dtypes', {}))
 
 
+def variant_of(fj, how):
+    """description of another table with the same columns, labels and dtypes: 'variantV' keeps the V columns and rotates the other columns
+    by one row, 'variantC' keeps the CDR3 columns, 'temp' rotates whole rows"""
+    keep = {'variantV': ('TRAV', 'TRBV'), 'variantC': ('CDR3A', 'CDR3B')}.get(how, ())
+    rot = (lambda v: list(v[1:]) + list(v[:1])) if how != 'temp' else (lambda v: list(v[::-1]))
+    return dict(fj, data={c: (list(v) if c in keep else rot(v)) for c, v in fj['data'].items()})
+
+
 def take_of(fj):
     return np.asarray(fj['take'] if 'take' in fj else range(nrows(fj)), dtype=np.int64)
 
@@ -200,17 +307,32 @@ def genes_for(*ojs):
 
 
 def snapshot(x):
-    return copy.deepcopy(x)
+    try:
+        return copy.deepcopy(x)
+    except Exception:
+        return x                    # e.g. a generator: not a table, nothing of the caller's to compare
 
 
 def same_object(a, b):
     """caller's object after the call equals the snapshot taken before"""
+    if a is b:
+        return True
     if isinstance(a, pd.DataFrame):
-        return (isinstance(b, pd.DataFrame) and list(a.columns) == list(b.columns) and a.index.equals(b.index)
+        return (isinstance(b, pd.DataFrame) and type(a) is type(b) and list(a.columns) == list(b.columns) and a.index.equals(b.index)
                 and type(a.index) is type(b.index) and list(a.dtypes.astype(str)) == list(b.dtypes.astype(str)) and a.equals(b)
-                and dict(a.attrs) == dict(b.attrs))
+                and dict(a.attrs) == dict(b.attrs)
+                # audit: names of the two axes, categories of categorical columns, flags
+                and list(a.index.names) == list(b.index.names) and list(a.columns.names) == list(b.columns.names)
+                and type(a.columns) is type(b.columns) and all(x == y for x, y in zip(a.dtypes, b.dtypes))
+                and a.flags.allows_duplicate_labels == b.flags.allows_duplicate_labels)
     if isinstance(a, pd.Series):
         return isinstance(b, pd.Series) and a.equals(b)
+    if isinstance(a, pd.Index):
+        return isinstance(b, pd.Index) and a.equals(b)
+    if isinstance(a, dict) and isinstance(b, dict):
+        return list(a) == list(b) and all(same_object(a[k], b[k]) for k in a)
+    if isinstance(a, list) and isinstance(b, list) and a and isinstance(a[0], pd.DataFrame):
+        return len(a) == len(b) and all(same_object(x, y) for x, y in zip(a, b))
     if isinstance(a, np.ndarray):
         return isinstance(b, np.ndarray) and a.shape == b.shape and a.tolist() == b.tolist()
     if isinstance(a, tuple) and a and isinstance(a[0], pd.DataFrame):
@@ -229,8 +351,8 @@ def cfg_of(case):
     cs, ls, _ = CLASSES[case['cls']]
     kw = dict(case.get('kwargs', {}))
     pos = list(case.get('pos', []))
-    names = ['insertion_weight', 'deletion_weight', 'substitution_weight']
-    for n, v in zip(names, pos):
+    names = list(EDITW)
+    for n, v in zip(names + list(CLASSES[case['cls']][2]), pos):      # positional arguments bind in the order of the documented signature
         kw[n] = v
     w3 = tuple(kw.get(n, 1) for n in names)
     w5 = tuple(kw.get(n, 1) for n in W5)
@@ -325,7 +447,20 @@ def judge(ctx, case, outs, tbl):
         else:
             keep.append(m[1])
     objs = [make_obj(case['A'])] + ([make_obj(case['B'])] if case['kind'] == 'cdist' else [])
+    if aliased(case):
+        objs[1] = objs[0]           # audit: ONE table object handed over as anchors and as comparisons (its description is stored twice)
     before = [snapshot(o) for o in objs]
+    # audit: the public methods called with keyword arguments (the documented parameter names)
+    if case.get('callkw') == 'swapped':      # keywords in the other order
+        cd = lambda m, x, y: call_impl(m.calc_cdist_matrix, comparisons=y, anchors=x)
+        pd_ = lambda m, x: call_impl(m.calc_pdist_vector, instances=x)
+    elif case.get('callkw'):
+        cd = lambda m, x, y: call_impl(m.calc_cdist_matrix, anchors=x, comparisons=y)
+        pd_ = lambda m, x: call_impl(m.calc_pdist_vector, instances=x)
+    else:
+        cd = lambda m, x, y: call_impl(m.calc_cdist_matrix, x, y)
+        pd_ = lambda m, x: call_impl(m.calc_pdist_vector, x)
+    same_call = lambda m: cd(m, objs[0], objs[-1]) if case['kind'] == 'cdist' else pd_(m, objs[0])
     # calls made before the judged one: [who, how]; who = -1 the metric under test, else a companion (before + after order)
     for who, how in alive.get('steps', []):
         m = metric if who < 0 else (keep[who] if who < len(keep) else None)
@@ -333,17 +468,41 @@ def judge(ctx, case, outs, tbl):
             continue
         a, b = objs[0], objs[-1]
         if how == 'same':
-            call_impl(m.calc_cdist_matrix, a, b) if case['kind'] == 'cdist' else call_impl(m.calc_pdist_vector, a)
+            same_call(m)
         elif how == 'swap':
-            call_impl(m.calc_cdist_matrix, b, a)
+            cd(m, b, a)
         elif how == 'selfA':
-            call_impl(m.calc_cdist_matrix, a, a)
+            cd(m, a, a)
         elif how == 'selfB':
-            call_impl(m.calc_cdist_matrix, b, b)
+            cd(m, b, b)
         elif how == 'pdistA':
-            call_impl(m.calc_pdist_vector, a)
+            pd_(m, a)
         elif how == 'pdistB':
-            call_impl(m.calc_pdist_vector, b)
+            pd_(m, b)
+        elif how == 'clobber':
+            # the caller overwrites the array an earlier identical call returned: a later call returns the stated values all the same
+            r = same_call(m)
+            if r[0] == 'ok' and isinstance(r[1], np.ndarray):
+                ctx.count('step_result_overwritten')
+                try:
+                    r[1][...] = 7
+                except Exception:
+                    pass
+        elif how in ('variantV', 'variantC', 'temp') and 'nontable' not in case['A']:
+            # ANOTHER table object (same columns, same labels; V columns / CDR3 columns / nothing shared with the judged one) evaluated earlier
+            ctx.count('step_other_table_' + how)
+            t = make_obj(variant_of(case['A'], how))
+            cd(m, t, b) if case['kind'] == 'cdist' and b is not a else pd_(m, t)
+            if how == 'temp':
+                # ... and freed; the judged table object is made only now (it may take the freed object's place in memory)
+                del t
+                a_old = a
+                objs[0] = a = make_obj(case['A'])
+                if case['kind'] != 'cdist' or b is a_old:
+                    objs[-1] = objs[0]
+                before[0] = snapshot(objs[0])
+                if len(before) > 1 and objs[-1] is objs[0]:
+                    before[1] = snapshot(objs[0])
         elif how == 'edited':
             # the SAME table object held other content when it was evaluated earlier (rows in reverse order), and was edited in place
             # since: the judged call sees the content the object holds now
@@ -352,7 +511,7 @@ def judge(ctx, case, outs, tbl):
                 ctx.count('step_edited_in_place')
                 for c in a.columns:
                     a[c] = pd.Series(saved[c].to_numpy(dtype=object)[::-1].copy(), index=a.index, dtype=saved[c].dtype)
-                call_impl(m.calc_cdist_matrix, a, b) if case['kind'] == 'cdist' else call_impl(m.calc_pdist_vector, a)
+                same_call(m)
                 for c in a.columns:
                     a[c] = pd.Series(saved[c].to_numpy(dtype=object).copy(), index=a.index, dtype=saved[c].dtype)
                 if not same_object(before[0], a):      # the restore did not give back the very same table: take a fresh one, step void
@@ -361,12 +520,12 @@ def judge(ctx, case, outs, tbl):
                     if case['kind'] != 'cdist' or objs[-1] is a:
                         objs[-1] = objs[0]
                     before[0] = snapshot(objs[0])
-    if case['kind'] == 'cdist':
-        res = call_impl(metric.calc_cdist_matrix, objs[0], objs[1])
-        call = '%s(%s).calc_cdist_matrix' % (case['cls'], fmt_args(case))
-    else:
-        res = call_impl(metric.calc_pdist_vector, objs[0])
-        call = '%s(%s).calc_pdist_vector' % (case['cls'], fmt_args(case))
+    res = same_call(metric)
+    call = '%s(%s).%s' % (case['cls'], fmt_args(case), 'calc_cdist_matrix' if case['kind'] == 'cdist' else 'calc_pdist_vector')
+    if case.get('callkw'):
+        call += ('(comparisons=.., anchors=..)' if case['callkw'] == 'swapped' else '(anchors=.., comparisons=..)') if case['kind'] == 'cdist' else '(instances=..)'
+    if len(objs) > 1 and objs[1] is objs[0]:
+        call += ' [one table object passed as anchors and as comparisons]'
     call += describe_alive(case)
     for k, (o, b) in enumerate(zip(objs, before)):
         if not same_object(b, o):
@@ -477,11 +636,16 @@ def describe_objs(case):
                 if 'take' in oj:
                     out.append('%s=frame(columns=%s, index=%s, %d rows = the %d distinct rows %s repeated in the order %s%s)' %
                                (k, oj['columns'], short(oj['index'], 60), nrows(oj), len(set(oj['take'])), short([r[1:] for r in wire_rows(distinct_of(oj))], 500),
-                                short(list(oj['take']), 80), (', caller\'s own loop-named columns %s' % short(own, 300)) if own else ''))
+                                short(list(oj['take']), 80), (', caller\'s own loop-named columns %s' % short(own, 300)) if own else '') + describe_options(oj))
                     continue
-                out.append('%s=frame(columns=%s, index=%s, rows=%s%s)' % (k, oj['columns'], short(oj['index'], 60), short([r[1:] for r in wire_rows(oj)], 400),
-                                                                        (', caller\'s own loop-named columns %s' % short(own, 300)) if own else ''))
+                out.append('%s=frame(columns=%s, index=%s, rows=%s%s)%s' % (k, oj['columns'], short(oj['index'], 60), short([r[1:] for r in wire_rows(oj)], 400),
+                                                                          (', caller\'s own loop-named columns %s' % short(own, 300)) if own else '', describe_options(oj)))
     return '; '.join(out)
+
+
+def describe_options(oj):
+    opt = ['%s=%s' % (k, oj[k]) for k in ('index_as', 'frame_as') if oj.get(k)] + (['dtypes=%s' % oj['dtypes']] if oj.get('dtypes') else [])
+    return (' {' + ', '.join(opt) + '}') if opt else ''
 
 
 def sub_frame(fj, rows):
@@ -489,9 +653,14 @@ def sub_frame(fj, rows):
     idx = list(range(n)) if fj['index'] == 'default' else fj['index']
     if 'take' in fj:
         sub = dict(fj, index=[idx[i] for i in rows], take=[fj['take'][i] for i in rows])
-        return sub if len(rows) > 12 else materialize(sub)
+        return sub if len(rows) > 12 else dict(materialize(sub), **frame_options(fj))
     return dict(columns=fj['columns'], index=[idx[i] for i in rows], data={c: [v[i] for i in rows] for c, v in fj['data'].items()},
-                dtypes=fj.get('dtypes', {}))
+                dtypes=fj.get('dtypes', {}), **frame_options(fj))
+
+
+def frame_options(fj):
+    """kind of index object / frame object of a table description (kept when rows are taken out of it)"""
+    return {k: fj[k] for k in ('index_as', 'frame_as') if fj.get(k) and not (k == 'index_as' and fj[k] == 'rangestep')}
 
 
 def run_cases(ctx, cases, report=True):
@@ -538,6 +707,12 @@ def shrink(ctx, case, kind):
             return case             # needs a table of that size: no row pair fails on its own
     na = nrows(case['A'])
     cands = []
+    if aliased(case):
+        # one table object in both positions: keep it so (one row, or two rows, of it)
+        for i in range(na):
+            for j in range(i, na):
+                sub = sub_frame(case['A'], [i] if i == j else [i, j])
+                cands.append(dict(case, A=sub, B=sub))
     if case['kind'] == 'cdist':
         nb = nrows(case['B'])
         for i in range(na):
@@ -559,22 +734,28 @@ def shrink(ctx, case, kind):
 def shrink_size(ctx, case, kind):
     """large tables: per table the shortest leading part that still fails the same way (bisection; <= 12 evaluations per table)"""
     fails = lambda c: any(k == kind for k, _ in run_cases(ctx, [c])[0][1])
-    for key in [k for k in ('A', 'B') if k in case and 'take' in case[k]]:
+    both = aliased(case)                        # one table object in both positions: both descriptions are cut alike
+    cut = lambda key, n: dict(case, **{k: sub_frame(case[key], range(n)) for k in (('A', 'B') if both else (key,))})
+    for key in [k for k in (('A',) if both else ('A', 'B')) if k in case and 'take' in case[k]]:
         lo, hi = 0, nrows(case[key])            # the leading hi rows fail; the leading lo rows are not known to
         for c in (2, 12):
-            if c < hi and fails(dict(case, **{key: sub_frame(case[key], range(c))})):
+            if c < hi and fails(cut(key, c)):
                 hi = c
                 break
             lo = c
         while hi - lo > 1 and hi > 12:
             mid = (lo + hi) // 2
-            if fails(dict(case, **{key: sub_frame(case[key], range(mid))})):
+            if fails(cut(key, mid)):
                 hi = mid
             else:
                 lo = mid
         if hi < nrows(case[key]):
-            case = dict(case, **{key: sub_frame(case[key], range(hi))})
+            case = cut(key, hi)
     return case
+
+
+def aliased(case):
+    return case.get('alias') == 'same' and case['kind'] == 'cdist' and case['A'] == case['B']
 
 
 def report(ctx, case, problems):
@@ -646,7 +827,34 @@ def gen_frame(rng, av, bv, special, n, kind, pool, plain=False):
             dtypes = {'TRAV': 'category', 'TRBV': 'category'}
         elif rng.random() < 0.1 and n > 0:
             dtypes = {'CDR3A': 'string', 'CDR3B': 'string'}
-    return dict(columns=cols, index=gen_index(rng, kind, n), data={c: data[c] for c in cols}, dtypes=dtypes)
+        elif rng.random() < 0.35 and n > 0:
+            dtypes = gen_dtypes(rng)                # audit: further column dtypes
+    fj = dict(columns=cols, index=gen_index(rng, kind, n), data={c: data[c] for c in cols}, dtypes=dtypes)
+    if not plain:
+        if rng.random() < 0.15:
+            fj['index_as'] = rng.choice(INDEX_AS)   # audit: further kinds of index objects
+        if rng.random() < 0.12:
+            fj['frame_as'] = rng.choice(FRAME_AS)   # audit: DataFrame subclass, part of a larger frame, named column axis
+    return fj
+
+
+S4 = ('TRAV', 'CDR3A', 'TRBV', 'CDR3B')
+DTYPE_SETS = [('str everywhere (the default of pandas 3)', {c: 'str' for c in S4}),
+              ('CDR3 categorical', {'CDR3A': 'category', 'CDR3B': 'category'}),
+              ('string V and CDR3', {c: 'string' for c in S4}),
+              ('categorical with unused categories', {c: 'category+' for c in S4}),
+              ('mixed', {'TRAV': 'str', 'CDR3A': 'category', 'TRBV': 'category+', 'CDR3B': 'string'})]
+
+
+def gen_dtypes(rng):
+    return dict(rng.choice(DTYPE_SETS)[1])
+
+
+def dtype_kind(dtypes):
+    for name, d in DTYPE_SETS:
+        if d == dtypes:
+            return name
+    return 'V categorical' if dtypes == {'TRAV': 'category', 'TRBV': 'category'} else 'CDR3 string' if dtypes else 'object'
 
 
 def gen_big_frame(rng, av, bv, special, n, kind, pool, plain=False):
@@ -747,6 +955,10 @@ def add_alive(rng, case, p=0.7):
         who = rng.randint(-1, len(before) + len(after) - 1)
         hows = STEP_HOWS if case['kind'] == 'cdist' else ['same', 'selfA', 'pdistA']
         steps.append([who, rng.choice(hows)])
+    if rng.random() < 0.35 and 'nontable' not in case['A']:
+        # audit: the caller overwrote an earlier result / other table objects were evaluated earlier (mostly by the metric under test)
+        who = -1 if rng.random() < 0.7 else rng.randint(-1, len(before) + len(after) - 1)
+        steps.insert(rng.randint(0, len(steps)), [who, rng.choice(STEP_HOWS_MORE)])
     if rng.random() < 0.3:
         steps.append([-1, 'edited'])          # last step before the judged call, on the metric under test
     case['alive'] = dict(before=before, after=after, steps=steps)
@@ -773,19 +985,162 @@ def gen_weights(rng, cls, mode):
             pos = ws[:3]
         else:
             kwargs.update(insertion_weight=ws[0], deletion_weight=ws[1], substitution_weight=ws[2])
-    for name, w in zip(CLASSES[cls][2], ws[3:]):
+    elif rng.random() < 0.25:
+        pos = [1, 1, 1][:rng.randint(1, 3)]         # audit: the native scorer path with the 1s written out (positionally)
+    names = list(CLASSES[cls][2])
+    npos = 0
+    if len(pos) == 3 and names and cls != 'CdrLevenshtein' and rng.random() < 0.5:
+        # audit: chain / loop weights handed over positionally too (a leading part of them, or all)
+        npos = rng.randint(1, len(names))
+        pos = pos + ws[3:3 + npos]
+    for name, w in list(zip(names, ws[3:]))[npos:]:
         if rng.random() < 0.9:
             kwargs[name] = w
+    if kwargs and rng.random() < 0.3:               # keyword order is free
+        items = list(kwargs.items())
+        rng.shuffle(items)
+        kwargs = dict(items)
     return dict(pos=pos, kwargs=kwargs)
+
+
+MORE_NONTABLES = ('list_of_frames', 'set', 'generator', 'int', 'recarray', 'frameclass', 'transposed', 'dict_of_series', 'series_of_dicts',
+                  'columns_index', 'ndarray_str', 'multicolumns')
 
 
 def nontable_objects(rng):
     objs = [dict(nontable=k) for k in ('none', 'list', 'ndarray', 'str', 'series', 'dict', 'records', 'duck', 'tuple_of_frames')]
+    objs += [dict(nontable=k) for k in MORE_NONTABLES]
     # frames without any TCR column (near misses included)
     for cols in ([], ['x'], ['trav', 'cdr3a'], ['CDR3', 'V', 'J'], ['TRAV ', 'CDR3A_'], ['v_call', 'junction_aa'], ['CDR1A', 'CDR2A', 'TRAC'], [0, 1]):
         n = rng.randint(0, 3)
         objs.append(dict(columns=[str(c) for c in cols], index='default', data={str(c): ['CASSF'] * n for c in cols}, dtypes={}))
     return objs
+
+
+# ------------------------------------------------------------------ audit: further case families
+def in_scope(cls):
+    """(chains, loops) in the scope of a class: chains 'A' / 'B', loops 1 / 2 / 3"""
+    cs, ls, _ = CLASSES[cls]
+    return [ch for ch in 'AB' if cs == 0 or (cs == 1) == (ch == 'A')], ([1, 2, 3] if ls == 0 else [3])
+
+
+def needed_columns(cls):
+    """the columns a metric of this class reads: the CDR3 columns of its chains, and both V columns when CDR1 / CDR2 are in scope"""
+    chains, loops = in_scope(cls)
+    return (['TRAV', 'TRBV'] if 1 in loops else []) + ['CDR3' + ch for ch in chains]
+
+
+def value_bound(case):
+    """upper bound of every entry of a case (C09_bounded): sum over chains and loops in scope of chain_weight * loop_weight *
+    (deletion_weight * longest anchor loop + insertion_weight * longest comparison loop); with the unit edit weights: * longest loop"""
+    cs, ls, w3, w5 = cfg_of(case)
+    chains, loops = in_scope(case['cls'])
+    tabs = [case['A'], case.get('B', case['A'])]
+    total = 0
+    for ch in chains:
+        for l in loops:
+            lens = []
+            for t in tabs:
+                if l == 3:
+                    lens.append(max([len(x) for x in t['data'].get('CDR3' + ch, [''])] or [0]))
+                else:
+                    lens.append(max([len(loops_of(v)[l - 1]) for v in t['data'].get('TR%sV' % ch, []) if v] or [0]))
+            d = max(lens) if w3 == (1, 1, 1) else w3[1] * lens[0] + w3[0] * lens[1]
+            total += w5[0 if ch == 'A' else 1] * w5[1 + l] * d
+    return total
+
+
+BOUNDARY_WEIGHTS = [255, 256, 257, 1000, 4096, 65535, 65536, 65537, 2 ** 24 - 1, 2 ** 24 + 1, 10 ** 6 + 3, 2 ** 31 - 1]
+
+
+def gen_wide_case(rng, av, bv, special, path, lo, hi, kind='cdist'):
+    """chain / loop weights far above the small primes.  path 'native': insertion = deletion = substitution = 1, the result is stored in uint32,
+    exact below 2^32;  path 'python': explicit edit weights, stored in float32, exact below 2^24.  The weights are drawn (log-uniform, or a
+    number next to a power of two) until the bound of the entries (C09_bounded) lies in [lo, hi)."""
+    cls = rng.choice([c for c in CLASSES if CLASSES[c][2]])
+    n = lambda: rng.randint(2, 5)
+    A = gen_frame(rng, av, bv, special, n(), rng.choice(INDEX_KINDS), (None, None), plain=True)
+    B = gen_frame(rng, av, bv, special, n(), rng.choice(INDEX_KINDS), (None, None), plain=True)
+    case = dict(kind=kind, cls=cls, A=A)
+    if kind == 'cdist':
+        case['B'] = B
+    names = CLASSES[cls][2]
+    for attempt in range(4000):
+        w3 = [1, 1, 1] if path == 'native' else rng.sample(SMALL_PRIMES, 3) if rng.random() < 0.6 else [rng.choice(SMALL_PRIMES)] * 3
+        ws = {}
+        for nm in names:
+            r = rng.random()
+            ws[nm] = 1 if r < 0.15 else rng.choice(BOUNDARY_WEIGHTS) if r < 0.4 else (int(10 ** rng.uniform(0, 9.6)) | 1)
+        case['pos'], case['kwargs'] = (w3 if path != 'native' else []), ws
+        if lo <= value_bound(case) < hi:
+            return case
+    return None
+
+
+def gen_long_case(rng, av, bv, special, L, mode, rows=(2, 2), cls=None):
+    """CDR3 loops of about L residues (64 / 128 / 256: word sizes of bit-parallel implementations) in the chain(s) the class reads"""
+    cls = cls or rng.choice(['AlphaCdr3Levenshtein', 'BetaCdr3Levenshtein', 'Cdr3Levenshtein', 'AlphaCdrLevenshtein'])
+    chains, _ = in_scope(cls)
+    ch = rng.choice(chains)
+    root = ''.join(rng.choice(gens.AA) for _ in range(L + 2))
+    def one():
+        r = rng.random()
+        k = L + rng.choice([-1, 0, 0, 1, 2])
+        if r < 0.35:
+            return gens.mutate(rng, root[:k], gens.AA, rng.randint(1, 9))
+        if r < 0.5:
+            return root[3:k] + root[:3]                 # a rotation: far in Hamming terms, near in edit terms
+        if r < 0.6:
+            return root[:k]
+        return ''.join(rng.choice(gens.AA) for _ in range(k))
+    pool = (['CAVRDSNYQLIW'], ['CASSIRSSYEQYF'])
+    A = gen_frame(rng, av, bv, special, rows[0], rng.choice(INDEX_KINDS), pool, plain=True)
+    B = gen_frame(rng, av, bv, special, rows[1], rng.choice(INDEX_KINDS), pool, plain=True)
+    for t in (A, B):
+        t['data']['CDR3' + ch] = [one() for _ in t['data']['CDR3' + ch]]
+    return dict(kind='cdist', cls=cls, A=A, B=B, **gen_weights(rng, cls, mode))
+
+
+def gen_distinct_frame(rng, av, bv, special, n, kind):
+    """n rows whose CDR3A are pairwise distinct and whose CDR3B are pairwise distinct (short loops: cost of the oracle)"""
+    def strs(head):
+        seen = set()
+        while len(seen) < n:
+            seen.add(head + ''.join(rng.choice(gens.AA) for _ in range(rng.randint(3, 9))) + rng.choice('FW'))
+        out = sorted(seen)
+        rng.shuffle(out)
+        return out
+    data = {'TRAV': [rng.choice(av) for _ in range(n)], 'CDR3A': strs('CA'), 'TRAJ': [None] * n,
+            'TRBV': [rng.choice(bv) for _ in range(n)], 'CDR3B': strs('CAS'), 'TRBJ': ['TRBJ2-7*01'] * n}
+    return dict(columns=list(TCR_COLS), index=gen_index(rng, kind, n), data=data, dtypes={})
+
+
+NEAR_STRINGS = ['CASSF', 'cassf', 'CaSSF', ' CASSF', 'CASSF ', 'CASSF\n', '\tCASSF', 'CASS F', 'CAS-SF', 'CAS.SF', 'CASSF*', '_CASSF',
+                'C\u00c1SSF', 'CA\u0301SSF', '\uff23\uff21\uff33\uff33\uff26', 'CASSF\u200b', '\u0421\u0410SSF', 'CASSF.', 'casSF']
+
+
+def gen_near_case(rng, av, bv, special, kind):
+    """CDR3 strings that differ in letter case, surrounding / inner white space, gap characters, combining marks or look-alike letters only:
+    the loops are compared as the strings they are"""
+    cls = rng.choice(list(CLASSES))
+    A = gen_frame(rng, av, bv, special, rng.randint(3, 6), rng.choice(INDEX_KINDS), (NEAR_STRINGS, NEAR_STRINGS))
+    B = gen_frame(rng, av, bv, special, rng.randint(3, 6), rng.choice(INDEX_KINDS), (NEAR_STRINGS, NEAR_STRINGS))
+    for t in (A, B):
+        for c in ('CDR3A', 'CDR3B'):
+            t['data'][c] = [rng.choice(NEAR_STRINGS) for _ in t['data'][c]]
+    case = dict(kind=kind, cls=cls, A=A, **gen_weights(rng, cls, rng.choice(ALL_MODES)))
+    if kind == 'cdist':
+        case['B'] = B
+    return case
+
+
+def restrict_columns(rng, fj, cls):
+    """the table with the columns the class reads (+ a random part of its other columns), in random order"""
+    need = needed_columns(cls)
+    other = [c for c in fj['columns'] if c not in need and rng.random() < 0.3]
+    cols = need + other
+    rng.shuffle(cols)
+    return dict(fj, columns=cols, data={c: fj['data'][c] for c in cols}, dtypes={c: d for c, d in fj.get('dtypes', {}).items() if c in cols})
 
 
 # ------------------------------------------------------------------ run
@@ -803,7 +1158,13 @@ def run(ctx):
                 'keep them alive, and evaluate them or the metric under test on other argument combinations before the judged call; plus large tables '
                 '(13-100, 101-400, 401-1000, 1001-1300 rows; thorough also 1301-2600; half of the sizes next to a round number) for calc_pdist_vector '
                 'and for calc_cdist_matrix (large x small, small x large, large x large), built from 4-8 distinct rows repeated in random order, '
-                'expected values expanded from the distinct rows\' distance table by C09_row_local + C09_pdist_condensed. non-trivial := '
+                'expected values expanded from the distinct rows\' distance table by C09_row_local + C09_pdist_condensed; plus (audit) the public methods '
+                'called with keyword arguments, constructor weights handed over positionally (all but CdrLevenshtein beyond the third), one table object '
+                'as anchors and comparisons, table sizes {0,1,2} x {0,1,2,4} per class, index objects {MultiIndex, float, datetime, tuple labels, named, '
+                'RangeIndex with a step}, frame objects {subclass, slice / mask of a larger frame, named column axis}, dtypes {str, string, categorical '
+                'incl. unused categories}, chain / loop weights up to 4*10^9 with entries up to the end of exact storage (2^32 native scorer, 2^24 '
+                'otherwise), CDR3 of 64 / 128 / 256 residues, 257-1100 pairwise distinct rows, near-equal CDR3 strings, tables with just the columns '
+                'a class reads, earlier calls on other table objects sharing labels / V columns / CDR3 columns, an earlier result overwritten by the caller. non-trivial := '
                 'both tables have >= 2 rows, some entry is non-zero, and the weights in scope are pairwise distinct primes')
     av, bv = allele_pools()
     ctx.rule = ctx.rule % (len(av) + len(bv))
@@ -822,8 +1183,8 @@ def run(ctx):
     ctx.count('alleles without CDR1 or CDR2 in the reference', len([a for a in av + bv if '' in loops_of(a)]))
     ctx.assumptions += ['tidytcells.tr.get_aa_sequence is the gene reference (CDR1-IMGT / CDR2-IMGT of an allele, absent key = empty loop): '
                         'its content is an input of the model, not verified',
-                        'rapidfuzz process.cdist values and result dtypes (uint32 for the C scorer, float32 for the Python-lambda scorer: exact '
-                        'below 2^24, the largest value generated here is below 4*10^6); pandas column assignment inside the copied frame; '
+                        'rapidfuzz process.cdist values and result dtypes (uint32 for the C scorer: exact below 2^32; float32 for the Python-lambda scorer: exact '
+                        'below 2^24; the generated weights keep every entry inside the domain of its path, up to its end); pandas column assignment inside the copied frame; '
                         'scipy squareform(checks=False) = strict upper triangle, row-major']
     cases = []
     # (a) full configuration product on one fixed pair of tables
@@ -873,9 +1234,21 @@ def run(ctx):
         A = gen_frame(rng, av, bv, special, na, ka, pool)
         B = gen_frame(rng, av, bv, special, nb, kb, pool)
         w = gen_weights(rng, cls, mode)
-        cases.append(add_alive(rng, dict(kind='cdist', cls=cls, A=A, B=B, tag=('random', ka, kb, mode), **w)))
+        kwcall = lambda: rng.choice([None, None, True, 'swapped'])       # audit: anchors= / comparisons= / instances= by keyword
+        cases.append(add_alive(rng, dict(kind='cdist', cls=cls, A=A, B=B, tag=('random', ka, kb, mode), callkw=kwcall(), **w)))
         if t % 2 == 0:
-            cases.append(add_alive(rng, dict(kind='pdist', cls=cls, A=A, tag=('random', ka, '-', mode), **w)))
+            cases.append(add_alive(rng, dict(kind='pdist', cls=cls, A=A, tag=('random', ka, '-', mode), callkw=kwcall(), **w)))
+        if t % 8 == 3 and na > 0:
+            # audit: ONE table object as anchors and as comparisons (the full square, both triangles), and two equal table objects
+            al = rng.choice(['same', 'same', 'copy'])
+            cases.append(add_alive(rng, dict(kind='cdist', cls=cls, A=A, B=A, alias=al, tag=('self cdist: ' + al, ka, ka, mode), callkw=kwcall(), **w)))
+        if t % 10 == 5:
+            # audit: both tables hold just the columns the class reads (+ some others)
+            c2 = rng.choice(list(CLASSES))
+            A2, B2 = restrict_columns(rng, A, c2), restrict_columns(rng, B, c2)
+            w2 = gen_weights(rng, c2, mode)
+            cases.append(add_alive(rng, dict(kind='cdist', cls=c2, A=A2, B=B2, tag=('needed columns only', ka, kb, mode), **w2)))
+            cases.append(add_alive(rng, dict(kind='pdist', cls=c2, A=B2, tag=('needed columns only', kb, '-', mode), **w2)))
         if t % 10 == 0 and na > 0:
             # a table holding only the columns of one chain, for the metrics of that chain's CDR3
             c1 = rng.choice(['AlphaCdr3Levenshtein', 'BetaCdr3Levenshtein'])
@@ -909,25 +1282,139 @@ def run(ctx):
             sized.append(gen_sized_case(rng, av, bv, special, 'cdist', small, big, budget))
             sized.append(gen_sized_case(rng, av, bv, special, 'cdist', big, big2, budget))
             sized.append(gen_sized_case(rng, av, bv, special, 'cdist', big2, big, budget))
+    # audit: 2^15 / 2^16 (thorough: 2^17) rows on one side and 1-3 rows on the other, CDR3-only classes (no gene lookups), any scorer
+    for n in ((2 ** 15, 2 ** 16) if ctx.quick else (2 ** 15, 2 ** 16, 2 ** 16, 2 ** 17)):
+        n, small = n + rng.randint(0, 3), rng.randint(1, 3)
+        c = gen_sized_case(rng, av, bv, special, 'cdist', *((n, small) if rng.random() < 0.5 else (small, n)), 0)
+        c['cls'] = rng.choice(list(CLASSES)[:3])
+        c.update(gen_weights(rng, c['cls'], rng.choice(ALL_MODES)))
+        sized.append(c)
     for c in sized:
         c['tag'] = ('sized', 'any', 'any', 'unit' if cfg_of(c)[2] == (1, 1, 1) else 'explicit edit weights')
     cases += sized
+    # ---------------- audit families (g) .. (m)
+    # (g) table sizes 0, 1, 2 on either side, every class, cdist and pdist
+    for cls in CLASSES:
+        cut = lambda f, n: dict(f, data={c: v[:n] for c, v in f['data'].items()})
+        for na, nb in itertools.product([0, 1, 2], [0, 1, 2, 4]):
+            mode = rng.choice(['weighted', 'unit', 'mixed', 'default'])
+            cases.append(dict(kind='cdist', cls=cls, A=cut(fixedA, na), B=cut(fixedB, nb), tag=('small sizes %d x %d' % (na, min(nb, 3)), 'default', 'default', mode),
+                              callkw=rng.choice([None, True]), **gen_weights(rng, cls, mode)))
+        for n in (0, 1, 2, 3):
+            mode = rng.choice(['weighted', 'unit', 'mixed'])
+            cases.append(dict(kind='pdist', cls=cls, A=cut(fixedB, n), tag=('small sizes pdist %d' % n, 'default', '-', mode), callkw=rng.choice([None, True]),
+                              **gen_weights(rng, cls, mode)))
+    # (h) class x {kind of index object, kind of frame object, column dtypes} on the fixed pair: option on the anchors / comparisons / both
+    options = [('index_as', x) for x in INDEX_AS] + [('frame_as', x) for x in FRAME_AS] + [('dtypes', d) for _, d in DTYPE_SETS]
+    nopt = 0
+    for cls in CLASSES:
+        for key, val in options:
+            nopt += 1
+            oa, ob = dict(fixedA, **{key: val}), dict(fixedB, **{key: val})
+            A, B = [(oa, fixedB), (fixedA, ob), (oa, ob)][nopt % 3]
+            if key == 'index_as' and val != 'rangestep' and nopt % 2:
+                A, B = dict(A, index=gen_index(rng, 'duplicated', 3)), dict(B, index=gen_index(rng, 'permuted', 4))
+            mode = rng.choice(EDIT_MODES + ['unit'])
+            cases.append(add_alive(rng, dict(kind='cdist', cls=cls, A=A, B=B, tag=('table options', 'default', 'default', mode), callkw=rng.choice([None, True, 'swapped']),
+                                             **gen_weights(rng, cls, mode)), p=0.3))
+            if not ctx.quick or nopt % 2 == 0:
+                cases.append(add_alive(rng, dict(kind='pdist', cls=cls, A=ob, tag=('table options', 'default', '-', mode), **gen_weights(rng, cls, mode)), p=0.3))
+        # one table object in both positions, asymmetric edit weights
+        cases.append(dict(kind='cdist', cls=cls, A=fixedB, B=fixedB, alias='same', tag=('self cdist: same', 'default', 'default', 'weighted'), **gen_weights(rng, cls, 'weighted')))
+    # (i) chain / loop weights far above the small primes, inside the exact-storage domain of each scorer path
+    wide = []
+    for t in range(16 if ctx.quick else 120):
+        kind = 'pdist' if t % 4 == 3 else 'cdist'
+        if t % 4 == 0:
+            c = gen_wide_case(rng, av, bv, special, 'native', 2 ** 31, 2 ** 32, kind)        # next to the end of uint32
+        elif t % 4 == 1:
+            c = gen_wide_case(rng, av, bv, special, 'python', 2 ** 22, 2 ** 24, kind)        # next to the end of exact float32
+        else:
+            c = gen_wide_case(rng, av, bv, special, 'native', 2 ** 26, 2 ** 32, kind)
+        if c is not None:
+            c['tag'] = ('wide weights', 'any', 'any', 'unit' if cfg_of(c)[2] == (1, 1, 1) else 'explicit edit weights')
+            wide.append(add_alive(rng, c, p=0.3))
+    cases += wide
+    if os.environ.get('PV_PENDING_C09'):
+        # PENDING (NOTES.md, POSSIBLE DEFECT): weights whose entries leave the exact-storage domain (float32 above 2^24, uint32 above 2^32)
+        for t in range(12):
+            c = gen_wide_case(rng, av, bv, special, *(('python', 2 ** 25, 2 ** 31) if t % 2 else ('native', 2 ** 33, 2 ** 40)))
+            if c is not None:
+                c['tag'] = ('PENDING: beyond exact storage', 'any', 'any', 'unit' if cfg_of(c)[2] == (1, 1, 1) else 'explicit edit weights')
+                c['pending'] = True
+                cases.append(c)
+        # PENDING (NOTES.md, POSSIBLE DEFECT): a categorical V column with an unused category that is not an allele (rows of an unknown V filtered out)
+        for cls in ('AlphaCdrLevenshtein', 'BetaCdrLevenshtein', 'CdrLevenshtein', 'Cdr3Levenshtein'):
+            cases.append(dict(kind='cdist', cls=cls, A=dict(fixedA, dtypes={'TRAV': 'category!', 'TRBV': 'category!'}), B=fixedB, pending=True, pos=[], kwargs={},
+                              tag=('PENDING: unused category of a V column', 'default', 'default', 'default')))
+    # (j) long CDR3 loops (about 64 / 128 / 256 residues)
+    longs = []
+    for rnd in range(1 if ctx.quick else 4):
+        for L in (64, 128):
+            for mode in ('unit', 'weighted', 'uniform'):
+                if ctx.quick and L == 128 and mode == 'uniform':
+                    continue
+                longs.append(gen_long_case(rng, av, bv, special, L, mode, rows=(2, 2) if L == 64 else (1, 2)))
+        longs.append(gen_long_case(rng, av, bv, special, 256, 'unit', rows=(1, 1), cls=rng.choice(['AlphaCdr3Levenshtein', 'BetaCdr3Levenshtein'])))
+        if not ctx.quick:
+            longs.append(gen_long_case(rng, av, bv, special, 256, 'weighted', rows=(1, 1), cls=rng.choice(['AlphaCdr3Levenshtein', 'BetaCdr3Levenshtein'])))
+    for c in longs:
+        c['tag'] = ('long CDR3', 'any', 'any', 'unit' if cfg_of(c)[2] == (1, 1, 1) else 'explicit edit weights')
+    cases += longs
+    # (k) large tables whose rows are pairwise DISTINCT (the large tables of (f) repeat 4-8 rows): more than 256 / 1000 distinct loops in a column
+    many = []
+    for rnd in range(1 if ctx.quick else 3):
+        for n, small in ((rng.randint(257, 300), rng.randint(1, 4)), (rng.randint(1001, 1100), rng.randint(2, 6))):
+            for flip in (False, True):
+                cls = rng.choice(list(CLASSES))
+                big = gen_distinct_frame(rng, av, bv, special, n, rng.choice(INDEX_KINDS))
+                sm = gen_distinct_frame(rng, av, bv, special, small, rng.choice(INDEX_KINDS))
+                sm['data']['CDR3A'][0], sm['data']['CDR3B'][0] = big['data']['CDR3A'][n // 2], big['data']['CDR3B'][n // 3]
+                mode = rng.choice(ALL_MODES)
+                many.append(dict(kind='cdist', cls=cls, A=sm if flip else big, B=big if flip else sm, **gen_weights(rng, cls, mode)))
+        for cls, mode in (('AlphaCdr3Levenshtein', 'unit'), ('BetaCdr3Levenshtein', rng.choice(EDIT_MODES))) if ctx.quick else \
+                ((rng.choice(list(CLASSES)), 'unit'), (rng.choice(list(CLASSES)[:3]), rng.choice(EDIT_MODES))):
+            many.append(dict(kind='pdist', cls=cls, A=gen_distinct_frame(rng, av, bv, special, rng.randint(257, 290), rng.choice(INDEX_KINDS)), **gen_weights(rng, cls, mode)))
+    for c in many:
+        c['tag'] = ('many distinct rows', 'any', 'any', 'unit' if cfg_of(c)[2] == (1, 1, 1) else 'explicit edit weights')
+    cases += many
+    # (l) CDR3 strings differing in case / white space / gap characters / combining marks / look-alike letters only
+    for t in range(8 if ctx.quick else 60):
+        c = gen_near_case(rng, av, bv, special, 'pdist' if t % 4 == 3 else 'cdist')
+        c['tag'] = ('near-equal CDR3 strings', 'any', 'any', 'unit' if cfg_of(c)[2] == (1, 1, 1) else 'explicit edit weights')
+        cases.append(c)
     # (c) inputs that are not TCR tables, in every argument position
     good = gen_frame(rng, av, bv, special, 3, 'permuted', pool, plain=True)
+    # audit: a TCR table that holds none of the columns the metrics read (J columns only), next to an object that is not a table
+    jonly = dict(columns=['TRBJ', 'TRAJ'], index='default', data={'TRBJ': ['TRBJ2-7*01'] * 2, 'TRAJ': ['TRAJ12*01'] * 2}, dtypes={})
+    for bad in rng.sample(nontable_objects(rng), 6 if ctx.quick else 20):
+        cls = rng.choice(list(CLASSES))
+        w = gen_weights(rng, cls, rng.choice(['weighted', 'default']))
+        cases.append(dict(kind='cdist', cls=cls, A=bad, B=jonly, tag=('non-table', 'anchors, next to a J-only table'), **w))
+        cases.append(dict(kind='cdist', cls=cls, A=jonly, B=bad, tag=('non-table', 'comparisons, next to a J-only table'), callkw=rng.choice([None, True]), **w))
     for bad in nontable_objects(rng):
         for cls in (list(CLASSES) if not ctx.quick else rng.sample(list(CLASSES), 3)):
             w = gen_weights(rng, cls, rng.choice(['weighted', 'uniform', 'default']))
             cases.append(dict(kind='cdist', cls=cls, A=bad, B=good, tag=('non-table', 'anchors'), **w))
             cases.append(dict(kind='cdist', cls=cls, A=good, B=bad, tag=('non-table', 'comparisons'), **w))
-            cases.append(dict(kind='cdist', cls=cls, A=bad, B=bad, tag=('non-table', 'both'), **w))
-            cases.append(dict(kind='pdist', cls=cls, A=bad, tag=('non-table', 'instances'), **w))
+            cases.append(dict(kind='cdist', cls=cls, A=bad, B=bad, tag=('non-table', 'both'), callkw=rng.choice([None, True, 'swapped']), **w))
+            cases.append(dict(kind='pdist', cls=cls, A=bad, tag=('non-table', 'instances'), callkw=rng.choice([None, True]), **w))
 
     results = run_cases(ctx, cases)
     nviol = 0
-    biggest = max([v for _, _, o in results if len(o) > 1 and not isinstance(o[1], Exception)
-                   for r in o[1] for v in (r if isinstance(r, list) else [r])] or [0])
-    ctx.note('largest specification value generated: %d (float32 / uint32 storage is exact below 2^24 = 16777216, C09_bounded)' % biggest)
-    assert biggest < 2 ** 24, 'generator left the exact-storage domain'
+    biggest = {True: 0, False: 0}           # native scorer path (uint32 storage) / Python-lambda scorer path (float32 storage)
+    for c, _, o in results:
+        if len(o) > 1 and not isinstance(o[1], Exception) and not c.get('pending'):
+            native = cfg_of(c)[2] == (1, 1, 1)
+            top = max([v for r in o[1] for v in (r if isinstance(r, list) else [r])] or [0])
+            biggest[native] = max(biggest[native], top)
+            if top >= 2 ** 24:
+                ctx.count('case with an entry >= 2^24 (native scorer path, uint32 storage)')
+            if top >= 2 ** 31:
+                ctx.count('case with an entry >= 2^31 (native scorer path, uint32 storage)')
+    ctx.note('largest specification value generated: %d with explicit edit weights (float32 storage is exact below 2^24 = 16777216), %d with '
+             'insertion = deletion = substitution = 1 (uint32 storage is exact below 2^32 = 4294967296); C09_bounded' % (biggest[False], biggest[True]))
+    assert biggest[False] < 2 ** 24 and biggest[True] < 2 ** 32, 'generator left the exact-storage domain'
     for n, (case, problems, outs) in enumerate(results):
         tag = case.get('tag', ('?',))
         cs, ls, w3, w5 = cfg_of(case)
@@ -940,7 +1427,32 @@ def run(ctx):
         for k in ('A', 'B'):
             if k in case and 'nontable' not in case[k] and any(c in INTERNAL_COLS for c in case[k]['columns']):
                 ctx.count('table with caller\'s loop-named columns: ' + ('all four' if set(LOOP_COLS) <= set(case[k]['columns']) else 'some'))
-        if tag[0] in ('product', 'random', 'one-chain table'):
+        # audit counters: how the call was made, what the tables were
+        ctx.count('constructor: positional arguments=%d' % len(case.get('pos', [])))
+        ctx.count('call: ' + {None: 'positional', True: 'keywords', 'swapped': 'keywords, comparisons first'}[case.get('callkw')])
+        if case.get('alias'):
+            ctx.count('cdist of a table with itself: ' + ('one object' if aliased(case) else 'two equal objects'))
+        for how in [h for _, h in (case.get('alive') or {}).get('steps', []) if h in STEP_HOWS_MORE]:
+            ctx.count('earlier call of kind ' + how)
+        for k in ('A', 'B'):
+            if k in case and 'nontable' not in case[k]:
+                fj = case[k]
+                if fj.get('index_as'):
+                    ctx.count('index object=' + fj['index_as'])
+                if fj.get('frame_as'):
+                    ctx.count('frame object=' + fj['frame_as'])
+                ctx.count('dtypes=' + dtype_kind(fj.get('dtypes', {})))
+                if not set(TCR_COLS) <= set(fj['columns']):
+                    ctx.count('table lacking some of the six TCR columns')
+                if tag[0] != 'sized':
+                    L = max([len(x) for c3 in ('CDR3A', 'CDR3B') for x in fj['data'].get(c3, [])] or [0])
+                    ctx.count('longest CDR3 of a table=' + ('<= 63' if L <= 63 else '64-127' if L <= 127 else '128-255' if L <= 255 else '>= 256'))
+                    nk = nrows(fj)
+                    if nk > 12:
+                        ctx.count('table of pairwise distinct rows: ' + ('13-256' if nk <= 256 else '257-1000' if nk <= 1000 else '> 1000'))
+            elif k in case and tag[0] == 'non-table':
+                ctx.count('non-table=' + case[k]['nontable'])
+        if len(tag) == 4 and tag[1] != 'any':
             ctx.count('anchor index=' + tag[1])
             ctx.count('scorer=' + tag[3])
             na = nrows(case['A'])
@@ -953,7 +1465,8 @@ def run(ctx):
                 if k in case:
                     nk = nrows(case[k])
                     ctx.count('large-table case: rows of a table=' + ('<= 12' if nk <= 12 else '13-100' if nk <= 100 else '101-400' if nk <= 400 else
-                                                                      '401-1000' if nk <= 1000 else '1001-1300' if nk <= 1300 else '1301-2600'))
+                                                                      '401-1000' if nk <= 1000 else '1001-1300' if nk <= 1300 else '1301-2600' if nk <= 2600 else
+                                                                      '32768-32771' if nk < 2 ** 16 else '65536-65539' if nk < 2 ** 17 else '131072-131075'))
         nt = None
         if tag[0] != 'non-table' and len(outs) > 1 and not isinstance(outs[1], Exception):
             spec = outs[1]
